@@ -179,13 +179,15 @@ def run_batches(profile, seed, total, thorough, jobs, digests=False, wall_cap=No
     return viol, stats, samples, len(distinct), len(orders), dig
 
 
-def replay_once(profile, ops, faults, layouts, noise=False, timeout=60, ops_a=None, tail=None, log_trace=False, build="checked"):
+def replay_once(profile, ops, faults, layouts, noise=False, timeout=60, ops_a=None, tail=None, log_trace=False, build="checked", reuse=False):
     exe = {"relnd": BIN2, "relnd-nostd": BIN3}.get(build, BIN)
     cmd = [exe if os.path.exists(exe) else BIN, "replay", "--profile", profile, "--layouts", ",".join(str(x) for x in layouts), "--faults", faults, "--ops", ";".join(ops)]
     if noise:
         cmd.append("--layout-noise")
     if log_trace:
         cmd.append("--log-trace")
+    if reuse:
+        cmd.append("--addr-reuse")
     if ops_a is not None:
         cmd += ["--ops-a", ";".join(ops_a), "--tail", str(tail)]
     try:
@@ -225,11 +227,12 @@ def minimise(prop, v, budget_s=120):
 
     lt = bool(v.get("log_trace", 0))
     bd = v.get("build", "checked")
+    ru = bool(v.get("addr_reuse", 0))
 
     def fails(o, f, l):
         if time.time() - t0 > budget_s:
             return False
-        return same_failure(replay_once(profile, o, f, l, noise, log_trace=lt, build=bd), prop, kind, cause)
+        return same_failure(replay_once(profile, o, f, l, noise, log_trace=lt, build=bd, reuse=ru), prop, kind, cause)
 
     if not fails(ops, faults, layouts):
         return None
@@ -311,7 +314,7 @@ def minimise(prop, v, budget_s=120):
             ops = cand
         else:
             i += 1
-    final = replay_once(profile, ops, faults, layouts, noise, log_trace=lt, build=bd)
+    final = replay_once(profile, ops, faults, layouts, noise, log_trace=lt, build=bd, reuse=ru)
     if not same_failure(final, prop, kind, cause):
         return None
     return {"ops": ops, "faults": faults, "layouts": layouts, "noise": noise, "final": final}
@@ -329,7 +332,7 @@ def write_replay(prop, v, mini):
         "property": prop, "profile": v["profile"], "engine": "sim", "kind": v["kind"], "cause": v["cause"],
         "seed": v["seed"], "run": v["run"], "exec": v.get("exec", 0), "layouts": layouts, "layout_noise": noise,
         "calls": ops, "faults": faults, "minimised": bool(mini), "original_calls": len(parse_ops(v["ops"])),
-        "calls_a": parse_ops(v["ops_a"]) if v.get("ops_a") else None, "tail": v.get("tail"), "log_trace": bool(v.get("log_trace", 0)), "build": v.get("build", "checked"),
+        "calls_a": parse_ops(v["ops_a"]) if v.get("ops_a") else None, "tail": v.get("tail"), "log_trace": bool(v.get("log_trace", 0)), "build": v.get("build", "checked"), "addr_reuse": bool(v.get("addr_reuse", 0)),
         "expect": {"kind": final.get("kind"), "cause": final.get("cause"), "msg": final.get("msg"), "props": final.get("props")},
     }
     with open(path, "w") as f:
@@ -344,7 +347,7 @@ def do_replay_file(path, quiet=False):
     if eng != "sim":
         import engines
         return engines.replay(rec, path, quiet)
-    j = replay_once(rec["profile"], rec["calls"], rec.get("faults", ""), rec["layouts"], rec.get("layout_noise", False), ops_a=rec.get("calls_a"), tail=rec.get("tail"), log_trace=rec.get("log_trace", False), build=rec.get("build", "checked"))
+    j = replay_once(rec["profile"], rec["calls"], rec.get("faults", ""), rec["layouts"], rec.get("layout_noise", False), ops_a=rec.get("calls_a"), tail=rec.get("tail"), log_trace=rec.get("log_trace", False), build=rec.get("build", "checked"), reuse=rec.get("addr_reuse", False))
     prop = rec["property"]
     if j.get("type") == "violation" and prop in j.get("props", []):
         if not quiet:
@@ -513,7 +516,7 @@ def check_sim(prop, tier, seed, jobs):
         "regression_replays_executed": regress_n,
         "other_property_violations": other_kinds,
         "components": {"real": ["cactusref (all modules, built from /repo working tree with --cfg cactusref_verif; three build configurations: debug assertions + overflow checks on; both off; both off and cactusref's `std` feature off; worker chunks alternate)", "hashbrown", "rustc-hash"] + (["std::rc (reference implementation)"] if prop == "C07" else []),
-                       "stub": ["payload value type (instrumented Node)", "global allocator (layout-scheduling arena)", "log backend (counting sink; Trace level in 1 run of 8, Off otherwise)"]},
+                       "stub": ["payload value type (instrumented Node)", "global allocator (layout-scheduling arena; freed addresses never reused, except in one run of six where they are reused LIFO per size class)", "log backend (counting sink; Trace level in 1 run of 8, Off otherwise)"]},
         "exhaustive": False,
     }
     if prop == "C03" and not unlisted:
